@@ -1,13 +1,22 @@
-// Builds the fathom tablebase prober that /repo's bindings link against and switches the
-// verification hooks of /repo's sources on for this crate only.
+// Builds the fathom tablebase prober that the engine's bindings link against, switches the verification hooks of
+// the engine's sources on for this crate only, and writes the glue that pulls the engine's sources in by path.
+// The repository is /repo unless VERIF_REPO names another checkout (used by background runs on a snapshot).
+use std::io::Write;
+
 fn main() {
-    println!("cargo:rerun-if-changed=/repo/src/engine/tablebases/fathom/src");
+    let repo = std::env::var("VERIF_REPO").ok().filter(|s| !s.is_empty()).unwrap_or_else(|| "/repo".to_string());
+    println!("cargo:rerun-if-env-changed=VERIF_REPO");
+    println!("cargo:rerun-if-changed={repo}/src/engine/tablebases/fathom/src");
     println!("cargo:rerun-if-changed=build.rs");
+    println!("cargo:rerun-if-changed=../common/glue.rs.in");
     println!("cargo::rustc-check-cfg=cfg(jgilchrist_tcheran_verif)");
     println!("cargo:rustc-cfg=jgilchrist_tcheran_verif");
     cc::Build::new()
-        .include("/repo/src/engine/tablebases/fathom/src")
-        .file("/repo/src/engine/tablebases/fathom/src/tbprobe.c")
+        .include(format!("{repo}/src/engine/tablebases/fathom/src"))
+        .file(format!("{repo}/src/engine/tablebases/fathom/src/tbprobe.c"))
         .warnings(false)
         .compile("fathom");
+    let template = std::fs::read_to_string("../common/glue.rs.in").expect("glue.rs.in");
+    let out = std::path::Path::new(&std::env::var("OUT_DIR").unwrap()).join("glue.rs");
+    std::fs::File::create(out).unwrap().write_all(template.replace("@REPO@", &repo).as_bytes()).unwrap();
 }
